@@ -10,6 +10,7 @@ Line protocol of the C03 model driver.
       ins <n> <c>...            outs <n> <c>...
       reject <c> <k>            the hint of channel c rejects data value k
       hintbad <a> <b>           hint of a is NOT as-or-more-specific than hint of b
+      recv <a> <b>              value link present after construction (macro input → child input, …)
       fuel <k>                  recursion limit for receiver chains
     operations (one output line each: outcome + full observation):
       set <c> <v>               v = ND | <k>
@@ -129,6 +130,10 @@ def stepLine (st : St) (ws : List String) : St × List String :=
   | ["hintbad", a, b] =>
     match a.toNat?, b.toNat? with
     | some a, some b => ({ st with hintbad := (a, b) :: st.hintbad }, [])
+    | _, _ => bad
+  | ["recv", a, b] =>
+    match a.toNat?, b.toNat? with
+    | some a, some b => ({ st with s := { st.s with recv := updF st.s.recv a (some b) } }, [])
     | _, _ => bad
   | ["fuel", k] =>
     match k.toNat? with
